@@ -162,9 +162,10 @@ fn apply(p: &GenProject, target: usize, fault: &Fault) -> Option<Vec<u8>> {
             s.push_str(stmt);
             s.push(' ');
             s.push_str(&src[at..]);
-            // helper templates go before a main component (or at the end)
-            let end = f.ast.main.as_ref().and_then(|m| f.r.tight_span(m.id)).map(|sp| sp.0 + stmt.len() + 2).unwrap_or(s.len());
-            s.insert_str(end.min(s.len()), HELPERS);
+            // the helper templates live in a file of their own that is only included (never named)
+            let inc_at = f.ast.defs.first().and_then(|d| f.r.tight_span(d.id)).map(|sp| sp.0).unwrap_or(0);
+            let inc_at = if inc_at > at { inc_at + stmt.len() + 2 } else { inc_at };
+            s.insert_str(inc_at.min(s.len()), "include \"zzlib.circom\";\n");
             Some(s.into_bytes())
         }
         Fault::DuplicateParam(d) => {
@@ -191,10 +192,11 @@ fn apply(p: &GenProject, target: usize, fault: &Fault) -> Option<Vec<u8>> {
         }
         Fault::SecondMainSameFile => {
             let mut s = src.clone();
+            s.push_str("\ntemplate ZzLocal() { signal input a; signal output o; o <== a; }\n");
             if f.ast.main.is_none() {
-                s.push_str("\ncomponent main = ZzOne();\n");
+                s.push_str("\ncomponent main = ZzLocal();\n");
             }
-            s.push_str("\ncomponent main = ZzOne();\n");
+            s.push_str("\ncomponent main = ZzLocal();\n");
             Some(s.into_bytes())
         }
     }
@@ -214,7 +216,7 @@ fn has_error_with_id(b: &BinResult, ids: &[&str], file: Option<&Path>) -> bool {
 
 fn case(ctx: &Ctx, tape: &[u8], rec: &Rec) -> Verdict {
     let mut t = Tape::new(tape);
-    let mut o = ProjOpts { max_files: 2, max_defs: 2, comments: false, main_component: true, clean: true };
+    let mut o = ProjOpts { max_files: 2, max_defs: 2, comments: false, main_component: true, clean: true, bom_chance: 0 };
     if t.chance(80) {
         o.comments = true;
     }
@@ -291,6 +293,7 @@ fn case_in(ctx: &Ctx, p: &GenProject, t: &mut Tape, rec: &Rec, dir: &Path) -> Ve
         let fdir = dir.join("faulted");
         let _ = std::fs::remove_dir_all(&fdir);
         let _ = std::fs::create_dir_all(&fdir);
+        std::fs::write(fdir.join("zzlib.circom"), format!("pragma circom 2.0.0;{HELPERS}")).map_err(|e| Bad::new(format!("INFRA write: {e}")))?;
         for (i, file) in p.files.iter().enumerate() {
             if i != target {
                 std::fs::write(fdir.join(&file.rel), &file.r.src).map_err(|e| Bad::new(format!("INFRA write: {e}")))?;
